@@ -213,4 +213,22 @@ def run(tier: str, replay=None) -> int:
     if nin < n // 4:
         raise MachineryError(f"only {nin} of {n} generated cases are inside the premise")
     chk.extra["cases_in_premise"] = nin
+    # exhaustive core enumerated by TLC itself
+    from .objective import enum_core
+    from .tlc import require_actions
+    res, items = enum_core()
+    chk.add_tlc(res, "ObjectiveEnum")
+    if len(items) < 30000 or len(items) >= res["distinct"]:       # vacuity: every complete configuration is a distinct state and is emitted
+        raise MachineryError(f"ObjectiveEnum emitted {len(items)} configurations for {res['distinct']} states")
+    chk.extra["enumerated_core_total"] = len(items)
+    pick = items if tier == "thorough" else [it for k, it in enumerate(items) if (k + seed()) % 10 == 0]
+    nen = 0
+    for case, e in pick:
+        if not in_premise(e):
+            for r in why_not(e):
+                chk.skip(f"enumerated core outside premise: {r}")
+            continue
+        nen += 1
+        check_case(chk, case, e, groups_independent=False)
+    chk.extra["enumerated_core_replayed"] = nen
     return chk.finish()
